@@ -61,12 +61,25 @@ fn loose(obs: &Value) -> Value {
       slots.insert(k.clone(), vv);
     }
   }
+  // a package for which no requirement is recorded says the same whether it
+  // has an (empty) entry in the table or none
+  let mut packages = obs["packages"].clone();
+  for field in ["deps", "exports"] {
+    if let Some(t) = packages.get_mut(field).and_then(|d| d.as_object_mut()) {
+      t.retain(|_, v| match v {
+        Value::Array(a) => !a.is_empty(),
+        Value::Object(o) => !o.is_empty(),
+        Value::Null => false,
+        _ => true,
+      });
+    }
+  }
   json!({
     "slots": slots,
     "modules": obs["modules"],
     "redirects": obs["serialized"]["redirects"],
     "roots": obs["serialized"]["roots"],
-    "packages": obs["packages"],
+    "packages": packages,
     "has_node_specifier": obs["has_node_specifier"],
   })
 }
